@@ -245,3 +245,21 @@ def re_call_problem(call):
 def re_calls(tree):
     return [n for n in ast.walk(tree) if isinstance(n, ast.Call) and isinstance(n.func, ast.Attribute) and isinstance(n.func.value, ast.Name) and
             n.func.value.id == 're' and n.func.attr in RE_SIGNATURES]
+
+
+def run_as(ctx, fn, old, new):
+    """run rule function `fn` (written for rule id `old`) with its obligations recorded under rule id `new`: a
+    structural clause that is a necessary condition of two properties is decided once and reported under both"""
+    rep = ctx.rep
+    orig_ob, orig_floor = rep.ob, rep.floor
+
+    def ob(rule, *a, **k):
+        return orig_ob(new + rule[len(old):] if rule.startswith(old) else rule, *a, **k)
+
+    def floor(rule, *a, **k):
+        return orig_floor(new + rule[len(old):] if rule.startswith(old) else rule, *a, **k)
+    rep.ob, rep.floor = ob, floor
+    try:
+        fn(ctx)
+    finally:
+        rep.ob, rep.floor = orig_ob, orig_floor
